@@ -423,8 +423,8 @@ func ruleHandshakeTable(c *Ctx) {
 	}
 	format, _ := constString(info, line.Args[0])
 	addrCall := func(e ast.Expr, method string) bool {
-		// listener.Addr().<method>()
-		c1, ok := ast.Unparen(e).(*ast.CallExpr)
+		// listener.Addr().<method>()  (possibly through a local alias of listener.Addr())
+		c1, ok := ast.Unparen(p.Deref(f, e)).(*ast.CallExpr)
 		if !ok {
 			return false
 		}
@@ -432,7 +432,7 @@ func ruleHandshakeTable(c *Ctx) {
 		if !ok || s1.Sel.Name != method {
 			return false
 		}
-		c2, ok := ast.Unparen(s1.X).(*ast.CallExpr)
+		c2, ok := ast.Unparen(p.Deref(f, s1.X)).(*ast.CallExpr)
 		if !ok {
 			return false
 		}
@@ -462,10 +462,13 @@ func ruleHandshakeTable(c *Ctx) {
 		if !ok || len(as.Lhs) != 1 || identObj(info, as.Lhs[0]) != lineVar || lineVar == nil || m == g.NodeOf(line) {
 			continue
 		}
+		if as.Tok == token.ASSIGN || as.Tok == token.DEFINE {
+			continue // a copy, not an extension
+		}
 		n7++
 		mm := m
 		if !g.OnlyViaEdge(mm, func(e *Edge) bool {
-			at, isAt := edgeAtom(info, e)
+			at, isAt := p.EdgeAtom(f, e)
 			if !isAt || at.Kind != "cmp" || at.Op != token.NEQ {
 				return false
 			}
@@ -498,8 +501,10 @@ func ruleHandshakeTable(c *Ctx) {
 	// the printed value is the line
 	printed := false
 	for _, call := range callsIn(si.print.Ast) {
-		if len(call.Args) == 2 && identObj(info, call.Args[1]) == lineVar && lineVar != nil {
-			printed = true
+		if len(call.Args) == 2 && lineVar != nil {
+			if identObj(info, call.Args[1]) == lineVar || identObj(info, p.Deref(f, call.Args[1])) == lineVar {
+				printed = true
+			}
 		}
 	}
 	if printed {
@@ -536,10 +541,19 @@ func ruleHandshakeTable(c *Ctx) {
 	okCert := false
 	for _, m := range g.Nodes {
 		as, ok := m.Ast.(*ast.AssignStmt)
-		if !ok || len(as.Lhs) != 1 || identObj(info, as.Lhs[0]) != certV || certV == nil {
+		if !ok || len(as.Lhs) != len(as.Rhs) || certV == nil {
 			continue
 		}
-		if call, ok := ast.Unparen(as.Rhs[0]).(*ast.CallExpr); ok && len(call.Args) == 1 {
+		var rhs ast.Expr
+		for i, l := range as.Lhs {
+			if identObj(info, l) == certV {
+				rhs = as.Rhs[i]
+			}
+		}
+		if rhs == nil {
+			continue
+		}
+		if call, ok := ast.Unparen(p.Deref(f, rhs)).(*ast.CallExpr); ok && len(call.Args) == 1 {
 			if ix, ok := ast.Unparen(call.Args[0]).(*ast.IndexExpr); ok {
 				if k, isK := constInt(info, ix.Index); isK && k == 0 {
 					if se, ok := ast.Unparen(ix.X).(*ast.SelectorExpr); ok && se.Sel.Name == "Certificate" {
